@@ -18,6 +18,7 @@ type Query struct {
 	Secs    float64
 	Model   string
 	Cover   bool
+	Before  bool     // call-site covers: the state BEFORE the callee's posts were assumed
 	Values  []string // terms whose values to fetch on sat
 	Inputs  map[string]string
 }
@@ -70,9 +71,13 @@ func (x *Exec) emit(st *State, name, kind string, goal Tm, desc string) {
 
 // emitCover records a reachability check (expected sat).
 func (x *Exec) emitCover(st *State, name string, desc string) {
+	x.emitCoverQ(st, name, desc, false)
+}
+
+func (x *Exec) emitCoverQ(st *State, name string, desc string, before bool) {
 	o := x.obligation(name, "cover")
 	o.ExpectSat = true
-	q := &Query{Desc: desc, Path: x.paths, Cover: true}
+	q := &Query{Desc: desc, Path: x.paths, Cover: true, Before: before}
 	// reachability is checked without the quantified axioms of pure functions (their
 	// consistency is the business of those functions' own obligations); this keeps
 	// "sat" answers cheap.
